@@ -62,7 +62,8 @@ func c19TryClient(reply []byte, eofAfter bool) (ok bool, exts map[string]string,
 		r.c.Close()
 		c2sR.Close()
 		return true, exts, "", false
-	case <-time.After(20 * time.Second):
+	case <-time.After(lib.HangWait(20 * time.Second)):
+		lib.SpendHang("c19/client-handshake", lib.HangWait(20*time.Second))
 		s2cW.Close()
 		c2sR.Close()
 		return false, nil, "", true
